@@ -12,8 +12,6 @@ THEOREMS = [
     "Mesa.Viz.C20_space_agents_exactly_once",
     "Mesa.Viz.C20_collect_one_entry_per_agent",
     "Mesa.Viz.C20_entry_is_portrayal_or_default",
-    "Mesa.Viz.C20_collect_optional_arrays",
-    "Mesa.Viz.C20_location_rule",
     "Mesa.Viz.C20_V3_inplace_pop_refuted",
     "Mesa.Viz.C20_inplace_agrees_on_unshared_dicts",
     "Mesa.Viz.C20_scatter_partition",
@@ -25,13 +23,13 @@ THEOREMS = [
     "Mesa.Viz.C20_empty_space_draws_nothing",
     "Mesa.Viz.C20_default_size_defined",
     "Mesa.Viz.C20_draw_kwargs",
-    "Mesa.Viz.C20_draw_kwargs_apply_to_every_marker",
     "Mesa.Viz.C20_hex_marker_at_hexagon_centre",
     "Mesa.Viz.C20_distinct_locations_distinct_positions",
     "Mesa.Viz.C20_altair_one_row_per_agent",
     "Mesa.Viz.C20_altair_row_values",
     "Mesa.Viz.C20_altair_chart_encoding",
-    "Mesa.Viz.C20_altair_uniform_portrayal_encoded",
+    "Mesa.Viz.C20_altair_portrayal_encoded_partial",
+    "Mesa.Viz.C20_A1_first_row_encoding_refuted",
     "Mesa.Viz.C20_layer_image_orientation",
     "Mesa.Viz.C20_layer_hex_orientation",
     "Mesa.Viz.C20_V8_ravel_refuted",
@@ -43,10 +41,8 @@ THEOREMS = [
     "Mesa.Viz.C20_layers_drawn_are_the_requested_ones",
     "Mesa.Viz.C20_layers_refused",
     "Mesa.Viz.C20_draw_space_with_layers",
-    "Mesa.Viz.C20_V13_range_without_extent",
     "Mesa.Viz.C20_layer_color_modes_agree_in_range",
     "Mesa.Viz.C20_check_accepts_iff_binds_by_keyword",
-    "Mesa.Viz.C20_check_refuses_var_positional",
     "Mesa.Viz.C20_split_lossless_disjoint",
     "Mesa.Viz.C20_creator_checks_all_params",
     "Mesa.Viz.C20_creator_params_lossless",
@@ -79,7 +75,7 @@ ASSUMPTIONS = [
     "2-D spaces",
 ]
 RULE = ("12% ctrl scenarios: the real SolaraViz on a model class taking **kw that stops at kw[stop] (ModelController, or SimulatorController with an ABMSimulator), model_params of 0-4 entries (fixed ints / dicts, int / float Slider objects, option dicts of the five input types, rarely an unsupported type), render interval 1-5, threads on / off, then 3-12 user actions: Step, play / pause, Reset, render-interval and threads changes, input changes (also of names without an input), and play loops of 0-4 scripted ticks during whose sleeps the user does nothing / pauses / resets / moves the render slider / changes an input and during whose steps (15%) clicks pause; observed after every action: model.steps, model.running, the buttons (label, disabled), the render interval, the update counter, the keyword arguments the current model was created with; 40% space scenarios: one of 12 space classes (4 mesa.space grids, 3 discrete_space grids, 2 networks with 1-6 nodes, shuffled / "
-        "non-contiguous node labels and possibly no edges, Voronoi, 2 continuous spaces), sizes 1-5, 0-6 agents with several per cell, "
+        "non-contiguous node labels and possibly no edges, Voronoi with 1-6 centroids, 2 continuous spaces), sizes 1-5 (4% of the mesa.space grids / ContinuousSpace: width or height 0; 3% of the networks: no node — spaces without room, which draw_space / Altair refuse), 0-6 agents with several per cell, "
         "agents never placed, a pool of 0-4 portrayal dict *objects* shared between agents (keys color/size/marker/zorder, colours as names and as RGB(A) tuples — none / all / mixed —, the optional "
         "alpha/edgecolors/linewidths under an all/none/some policy, unsupported keys), interleaved place/move/remove/dict-rewrite/"
         "re-portray ops and observations collect_agent_data / draw_space (Agg; also with plotting keywords alpha / edgecolors / linewidths) / Altair _draw_grid (rows, encoded channels, x/y type, tooltip fields, default "
@@ -137,7 +133,21 @@ def builtin_corpus():
 run_impl = V.run_impl
 oracle = V.oracle
 
-KNOWN = {}
+KNOWN = {
+    # open finding A1: Altair's `_draw_grid` reads the colour / size channel off the first agent's row.  Identified by its
+    # call site and shape: a chart of rows of which some, not all, carry the key (the oracle clause names exactly that)
+    "A1": {
+        "scenario": [
+            "scenario space multi 2 2",
+            "dict 0 color=red size=5",
+            "place 1 0 0",
+            "place 2 1 1",
+            "portray 2 0",
+            "altair",
+        ],
+        "matches": lambda sc, clause: clause.split(":")[0] == "altair-encoding-first-row",
+    },
+}
 
 
 def nontrivial(sc, obs):
